@@ -62,8 +62,23 @@ class Run:
         self.langs = None
         self.exhaustive = False
         self.spec_violation = None
+        # thorough tier: bounded wall clock. A phase gets at most VERIF_PHASE_BUDGET seconds (cut gracefully, recorded);
+        # once VERIF_CHECK_BUDGET seconds are used up the remaining phases are skipped (recorded). Quick tier: no budgets,
+        # a timeout there is a machinery failure.
+        self.phase_budget = int(os.environ.get('VERIF_PHASE_BUDGET', '600')) if tier != 'quick' else None
+        self.check_budget = int(os.environ.get('VERIF_CHECK_BUDGET', '1800')) if tier != 'quick' else None
 
     # ---------------------------------------------------------------- phases
+    def _budget(self, timeout, kind, name, module=None, cfg=None, env=None):
+        """(timeout to use, skip?) under the thorough tier's wall-clock budgets"""
+        if self.check_budget is None:
+            return timeout, False
+        if time.time() - self.t0 > self.check_budget:
+            self.phases.append({'phase': kind, 'name': name, 'module': module, 'cfg': cfg, 'env': env or {},
+                                'skipped': 'time budget of the check (%d s) used up' % self.check_budget})
+            return timeout, True
+        return min(timeout, self.phase_budget), False
+
     def libs(self):
         if self.langs is None:
             self.langs = common.dump_langs()
@@ -73,6 +88,9 @@ class Run:
            depth=None, must_cover=()):
         """(A) exhaustive (or simulated) check of the specification itself. A violation here means the
         specification is inconsistent: that is a machinery error, not a verdict about the code."""
+        timeout, skip = self._budget(timeout, 'mc', name or cfg, module, cfg, env)
+        if skip:
+            return None
         r = tlc.run_tlc(module, cfg, env=env, timeout=timeout, workers=workers, coverage=coverage,
                         simulate=simulate, depth=depth, seed=self.seed if simulate else None,
                         allow_timeout=(self.tier != 'quick'))
@@ -104,6 +122,9 @@ class Run:
             self.phases.append({'phase': 'gen_replay', 'name': name or cfg, 'module': module, 'cfg': cfg, 'env': env or {},
                                 'skipped': 'verdict already clear: %d divergences so far%s' % (
                                     len(self.divs), ', cases timing out' if getattr(self, 'hang_seen', False) else '')})
+            return {'cases': 0, 'div': []}
+        timeout, skip = self._budget(timeout, 'gen_replay', name or cfg, module, cfg, env)
+        if skip:
             return {'cases': 0, 'div': []}
         eng = replay.Engine(adapter, adapter_args, workers=replay_workers)
         try:
@@ -141,6 +162,9 @@ class Run:
         rejected at the corrupted event (binding self-test), otherwise the run is a machinery failure."""
         import copy
         from harness import validate
+        _t, skip = self._budget(timeout, 'trace_validation', name)      # never cut short, only skipped when time is up
+        if skip:
+            return
         batch = list(traces)
         corrupted = {}
         src = {}
@@ -218,6 +242,9 @@ class Run:
         index probe answered with a stale node) must be rejected at the corrupted event."""
         import copy
         from harness import validate
+        _t, skip = self._budget(timeout, 'trace_validation', name)      # never cut short, only skipped when time is up
+        if skip:
+            return
         batch = list(traces)
         corrupted = {}
         src = {}
